@@ -24,6 +24,10 @@ class WorkerDied(BaseException):
     pass
 
 
+class HangDetected(BaseException):
+    pass
+
+
 class FakeQueue:
     def __init__(self, ctx, maxsize=0):
         self.ctx = ctx
@@ -426,6 +430,9 @@ def monitor_scripts(res, rng):
         [[0, 0, 0]],
         [[None, 1, None], [0, 1, 0]],
         [[137]],
+        # "R" = a surviving worker blocked on the queue: it keeps running until somebody kills it
+        [[None, "R"], [3, "R"]],
+        [["R", None, "R"], ["R", -9, "R"]],
     ]
     for script in scripts:
         nw = len(script[0])
@@ -450,7 +457,8 @@ def monitor_scripts(res, rng):
                 if self2.__dict__.get("_killed"):
                     return -9
                 row = script[min(max(tick[0] - 1, 0), len(script) - 1)]
-                return row[self2.idx]
+                v = row[self2.idx]
+                return None if v == "R" else v
 
             @exitcode.setter
             def exitcode(self2, v):
@@ -466,20 +474,30 @@ def monitor_scripts(res, rng):
         ctx.Process = lambda target=None, args=(), kwargs=None: ScriptedProcess(ctx, target, args, kwargs)
         tick = [0]
         with Patched(ctx):
-            H.sleep = lambda s_: tick.__setitem__(0, tick[0] + 1)   # one snapshot per monitor iteration
+            def _tick(s_):
+                tick[0] += 1
+                if tick[0] > 60:
+                    raise HangDetected()
+            H.sleep = _tick   # one snapshot per monitor iteration; a loop that never ends is a hang
             try:
                 H.parallel_add([], callback, n_workers=nw, hll_args={"p": 7})
                 outcome = "clean"
             except ValueError as e:
                 outcome = "closed" if "closed" in str(e) else f"ValueError:{e}"
+            except HangDetected:
+                outcome = "HANG"
             except UnboundLocalError:
                 outcome = "clean"  # empty item list: _fill_queue's final log line (not part of any property)
             except BaseException as e:  # noqa
                 outcome = type(e).__name__
-        bad = any(c not in (None, 0) for row in script for c in row)
-        # polls happen once per loop iteration per worker; the model sees the same snapshots
-        snaps = ";".join(",".join("n" if c is None else str(c) for c in row) for row in script)
-        ops.append([f"par.monitor {snaps}", outcome if outcome in ("clean", "closed") else "closed?", "monitor"])
+        bad = any(c not in (None, 0, "R") for row in script for c in row)
+        if outcome == "HANG":
+            res.oracle_failures.append({"pid": "C19", "what": f"C19 monitor: with exit codes {script} (R = survivor blocked on the queue) parallel_add never terminates: "
+                                        "after a worker died the surviving workers were not killed", "script": script})
+        # polls happen once per loop iteration per worker; the model sees the same snapshots (a killed survivor reads -9)
+        if not any(c == "R" for row in script for c in row):
+            snaps = ";".join(",".join("n" if c is None else str(c) for c in row) for row in script)
+            ops.append([f"par.monitor {snaps}", outcome if outcome in ("clean", "closed") else "closed?", "monitor"])
         if bad and outcome == "clean":
             res.oracle_failures.append({"pid": "C19", "what": f"C19 monitor: a worker exit code ≠ 0 in {script} but parallel_add returned normally", "script": script})
         if not bad and outcome != "clean":
